@@ -297,6 +297,10 @@ func (c *Cluster) queryHosts(ctx context.Context, conn *ClientConn, version prim
 		return nil, ClusterInfo{}, errors.New("empty result set returned for system.local")
 	}
 	hosts = c.addHosts(hosts, rs)
+	if len(hosts) == 0 {
+		// The row could not be turned into a host (e.g. no usable `rpc_address` or `data_center`)
+		return nil, ClusterInfo{}, errors.New("unable to create a host from the row returned for system.local")
+	}
 	row := rs.Row(0)
 	localDC := hosts[0].DC
 
